@@ -19,6 +19,13 @@ type item struct {
 // resolve looks up the items named by iinf among the iloc entries that were
 // read before it.
 func (h *HeicMeta) resolve() {
+	if len(h.pending) == 0 || (h.exif.id == 0 && h.xml.id == 0) {
+		return
+	}
+	// The entries are looked through once, not once per iinf box (a file may
+	// hold any number of those): the list is emptied, not dropped, so that no
+	// later iloc box is kept either.
+	defer func() { h.pending = h.pending[:0] }()
 	for _, p := range h.pending {
 		if p.id == h.exif.id && h.exif.id != 0 && h.exif.ol == (offsetLength{}) {
 			h.exif.ol = p.ol
